@@ -97,6 +97,33 @@ def keyrace(rng):
     return lines
 
 
+def keyfree(rng):
+    """the reference to a TLS key is released (p_uthread_local_free) while threads that stored values under it are still alive:
+    the key itself stays, and every value left under it is destroyed when its thread exits"""
+    n = rng.randint(1, 3)
+    f2 = rng.randint(0, 1)
+    lines = ["keynew 1 1", "keynew 2 %d" % f2]
+    v = 400
+    for h in range(1, n + 1):
+        sub = []
+        for _ in range(rng.randint(1, 4)):
+            k = rng.randint(1, 2)
+            sub.append("%s %d %d" % (rng.choice(["tset", "trepl"]), k, v))
+            v += 1
+        sub += ["tget 1 0", "write %d" % v, rng.choice(["exit %d" % h, "ret"])]
+        v += 1
+        lines += ["T %d: %s" % (h, x) for x in sub]
+    lines += ["new %d 1" % h for h in range(1, n + 1)]
+    lines += ["go %d 1" % h for h in range(1, n + 1)]
+    lines += ["waitst %d 2" % h for h in range(1, n + 1)]      # every thread has made its TLS calls and is parked before its exit
+    lines += rng.choice([["keyfree 1"], ["keyfree 1", "keyfree 2"], ["keyfree 2", "keyfree 1"]])
+    lines += ["go %d 2" % h for h in range(1, n + 1)]
+    for h in range(1, n + 1):
+        lines += ["join %d" % h, "unref %d" % h]
+    lines.append("epoch")
+    return lines
+
+
 def unrefrace(rng):
     """the last references of a handle are dropped by several threads at the same moment"""
     lines = ["keynew 1 0"]
@@ -131,7 +158,7 @@ def run(ctx):
                     lines += unrefrace(rng)
             for _ in range(0 if batch == nb else (nscen // 3 if ctx.quick else nscen // 12)):
                 r_ = rng.random()
-                lines += scenario(rng, rng.randint(1, 5)) if r_ < 0.55 else keyrace(rng) if r_ < 0.8 else unrefrace(rng)
+                lines += scenario(rng, rng.randint(1, 5)) if r_ < 0.5 else keyrace(rng) if r_ < 0.72 else keyfree(rng) if r_ < 0.82 else unrefrace(rng)
             sp = ctx.path("th_%s_%d.script" % (variant, batch))
             open(sp, "w").write("\n".join(lines) + "\n")
             base = ctx.path("th_%s_%d" % (variant, batch))
